@@ -466,6 +466,42 @@ fn remote_state(r: &ArcRemoteCids<RRec>) -> Option<(u64, usize, u64, usize, usiz
     Some((coff, ncid, roff, nready, npend, cursor))
 }
 
+/// real state of one path's cell from the derived Debug output of `ArcCidCell`:
+/// (sequence numbers in `allocated_cids`, front = newest; `is_retired`; `is_using`).  `None` = poisoned / unparsed.
+fn cell_view(c: &ArcCidCell<RRec>) -> Option<(Vec<u64>, bool, bool)> {
+    let d = format!("{:?}", c);
+    if d.contains("poisoned: true") || d.contains("<locked>") { return None; }
+    let key = "allocated_cids: [";
+    let p = d.find(key)? + key.len();
+    let b = d.as_bytes();
+    let mut seqs = vec![];
+    let mut depth = 0i32;
+    let mut i = p;
+    loop {
+        if i >= b.len() { return None; }
+        match b[i] {
+            b'(' => {
+                depth += 1;
+                if depth == 1 {
+                    let rest = &d[i + 1..];
+                    let e = rest.find(|ch: char| !ch.is_ascii_digit())?;
+                    seqs.push(rest[..e].parse().ok()?);
+                }
+            }
+            b'[' | b'{' => depth += 1,
+            b')' | b'}' => depth -= 1,
+            b']' => { if depth == 0 { break; } depth -= 1; }
+            _ => {}
+        }
+        i += 1;
+    }
+    let flag = |k: &str| -> Option<bool> {
+        let q = d[i..].find(k)? + i + k.len();
+        if d[q..].starts_with("true") { Some(true) } else if d[q..].starts_with("false") { Some(false) } else { None }
+    };
+    Some((seqs, flag("is_retired: ")?, flag("is_using: ")?))
+}
+
 struct RCase {
     limit: u64,
     rec: RRec,
@@ -486,6 +522,13 @@ struct RCase {
     saw_reassign: bool,
     saw_deferred: bool,
     saw_jump: bool,
+    saw_burst3: bool,
+    // ---- ghost log for the per-path monitors (sequence numbers only, from the real cells' Debug output) ----
+    closed: bool,                       // a connection error was returned: only the exactly-once part is still judged
+    assigned: Vec<BTreeSet<u64>>,       // per cell: every sequence number ever seen in its allocated_cids
+    retire_count: BTreeMap<u64, u32>,   // multiset of RETIRE_CONNECTION_ID frames emitted
+    jump_checked: u64,                  // numbers below this were judged by `jumped_id_not_retired`
+    reported: BTreeSet<String>,         // (key, cell, seq) already reported in this case
 }
 
 impl RCase {
@@ -494,7 +537,8 @@ impl RCase {
         let remote = ArcRemoteCids::new(limit, rec.clone());
         RCase { limit, rec, remote, cells: vec![], held: vec![], names: HashMap::new(), cids: HashMap::new(), dead: false,
                 received: BTreeMap::new(), max_rpt: 0, retired: BTreeSet::new(), max_seq_seen: None, id_cell: HashMap::new(),
-                cell_retired: vec![], conflict: false, saw_reassign: false, saw_deferred: false, saw_jump: false }
+                cell_retired: vec![], conflict: false, saw_reassign: false, saw_deferred: false, saw_jump: false, saw_burst3: false,
+                closed: false, assigned: vec![], retire_count: BTreeMap::new(), jump_checked: 0, reported: BTreeSet::new() }
     }
 
     fn cid_of(&mut self, name: &str) -> ConnectionId {
@@ -520,12 +564,125 @@ impl RCase {
                 sink.monitor_fail("retire_of_unissued_seq", &format!("RETIRE_CONNECTION_ID {} although the peer's largest sequence number is {:?}", s, self.max_seq_seen));
             }
         }
+        for s in &fr { *self.retire_count.entry(*s).or_insert(0) += 1; }
+        self.observe(&fr, sink);
         let st = remote_state(&self.remote);
         let latest = self.remote.latest_dcid().map(|c| self.names.get(&c).cloned().unwrap_or("?".into())).unwrap_or("-".into());
         let frs = list(&fr.iter().map(|s| s.to_string()).collect::<Vec<_>>());
         match st {
             Some((coff, ncid, roff, nready, npend, cur)) => format!("frames={} cur={} coff={} ncid={} roff={} nready={} npend={} latest={}", frs, cur, coff, ncid, roff, nready, npend, latest),
             None => format!("frames={} DEBUG-UNPARSED latest={}", frs, latest),
+        }
+    }
+
+    fn flag(&mut self, sink: &mut Sink, key: &str, id: &str, what: &str) {
+        if self.reported.insert(format!("{} {}", key, id)) { sink.monitor_fail(key, what); }
+    }
+
+    /// RFC 9000 §5.1.2 / §19.15 for the peer's ids, evaluated on the REAL cells after every operation (`fr` = the
+    /// RETIRE_CONNECTION_ID frames this operation emitted): each path uses one id at a time, switches when its id
+    /// falls below Retire Prior To and a replacement exists, and every abandoned id is retired exactly once.
+    /// Knows nothing of the model: only the cells' Debug output, the frames sent and the frames received.
+    fn observe(&mut self, fr: &[u64], sink: &mut Sink) {
+        if self.dead { return; }
+        while self.assigned.len() < self.cells.len() { self.assigned.push(BTreeSet::new()); }
+        let views: Vec<Option<(Vec<u64>, bool, bool)>> = self.cells.iter().map(|c| cell_view(c)).collect();
+        for (i, v) in views.iter().enumerate() { if let Some((seqs, _, _)) = v { self.assigned[i].extend(seqs.iter().cloned()); } }
+        // ids a path holds: all of them while a BorrowedCid is alive, otherwise only the newest
+        let live: Vec<Vec<u64>> = views.iter().map(|v| match v {
+            Some((seqs, _, true)) => seqs.clone(),
+            Some((seqs, _, false)) => seqs.iter().take(1).cloned().collect(),
+            None => vec![],
+        }).collect();
+        // (a) exactly once: an id ever given to a path is either still held by it or retired (once; twice = retire_frame_duplicated)
+        for i in 0..views.len() {
+            let Some((seqs, _, using)) = views[i].clone() else { continue };
+            let qs: Vec<u64> = self.assigned[i].iter().cloned().collect();
+            for q in qs {
+                let cnt = self.retire_count.get(&q).cloned().unwrap_or(0);
+                let held = live[i].contains(&q);
+                if held && cnt > 0 {
+                    self.flag(sink, "retired_id_still_held", &format!("{} {}", i, q), &format!("cell {} still holds id seq {} although RETIRE_CONNECTION_ID {} was sent (cell: {:?}, in use {})", i, q, q, seqs, using));
+                } else if !held && cnt == 0 {
+                    let key = if using { "assigned_id_never_retired" } else { "abandoned_id_not_retired" };
+                    self.flag(sink, key, &format!("{} {}", i, q), &format!("cell {} (no BorrowedCid alive: {}) was switched away from id seq {} but RETIRE_CONNECTION_ID {} was never sent; cell now {:?}, retire_prior_to {}, RETIRE frames so far (largest 12) {:?}", i, !using, q, q, seqs, self.max_rpt, { let mut v: Vec<u64> = self.retire_count.keys().rev().take(12).cloned().collect(); v.reverse(); v }));
+                }
+            }
+        }
+        if self.closed { return; }
+        // (b) one id at a time
+        for i in 0..views.len() {
+            let Some((seqs, retired, using)) = views[i].clone() else { continue };
+            if !using && seqs.len() > 1 { self.flag(sink, "cell_holds_two_ids", &format!("{}", i), &format!("cell {} holds ids {:?} although no BorrowedCid is alive", i, seqs)); }
+            if retired && !seqs.is_empty() { self.flag(sink, "retired_cell_holds_id", &format!("{}", i), &format!("retired cell {} holds ids {:?}", i, seqs)); }
+            // ids are handed out in rising order: the newest is the largest ever given to this path
+            if let (Some(f), Some(m)) = (seqs.first().cloned(), self.assigned[i].iter().next_back().cloned()) {
+                if f != m || seqs.windows(2).any(|w| w[0] <= w[1]) { self.flag(sink, "cell_holds_stale_id", &format!("{}", i), &format!("cell {} holds {:?} (front = in use next) although it was given id seq {}", i, seqs, m)); }
+            }
+        }
+        // (c) no id in two paths at once
+        for i in 0..views.len() { for j in i + 1..views.len() {
+            if let (Some((a, _, _)), Some((b, _, _))) = (&views[i], &views[j]) {
+                if let Some(q) = a.iter().find(|q| b.contains(q)) {
+                    let q = *q;
+                    self.flag(sink, "id_shared_between_cells", &format!("{} {} {}", i, j, q), &format!("id seq {} is held by cells {} and {} at once", q, i, j));
+                }
+            }
+        } }
+        // (d) a retirement is sent only for an id that was abandoned: given to a path and no longer held, or below retire_prior_to
+        for q in fr {
+            if let Some(i) = live.iter().position(|l| l.contains(q)) {
+                self.flag(sink, "retire_of_live_id", &format!("held {}", q), &format!("RETIRE_CONNECTION_ID {} sent while cell {} still holds that id", q, i));
+            } else if !(*q < self.max_rpt || self.assigned.iter().any(|a| a.contains(q))) {
+                self.flag(sink, "retire_of_live_id", &format!("free {}", q), &format!("RETIRE_CONNECTION_ID {} sent for an id that no path gave up and that is not below retire_prior_to {}", q, self.max_rpt));
+            }
+        }
+        //     ... and every number below an accepted retire_prior_to that never reached a path is retired at once
+        for q in self.jump_checked..self.max_rpt {
+            if !self.assigned.iter().any(|a| a.contains(&q)) && self.retire_count.get(&q).cloned().unwrap_or(0) == 0 {
+                self.flag(sink, "jumped_id_not_retired", &format!("{}", q), &format!("retire_prior_to {} accepted, id seq {} was never given to a path, but RETIRE_CONNECTION_ID {} was not sent", self.max_rpt, q, q));
+            }
+        }
+        self.jump_checked = self.max_rpt;
+        // (e) switching: an idle path keeps an id below retire_prior_to only while no replacement exists.  Ids are handed out
+        //     in sequence order, so the replacement is the next number never handed out / retired; a gap (that number not
+        //     yet received, later ones received) is not judged.
+        let next = self.assigned.iter().filter_map(|a| a.iter().next_back().cloned()).chain(self.retire_count.keys().next_back().cloned())
+            .max().map(|m| m + 1).unwrap_or(0).max(self.max_rpt);
+        for i in 0..views.len() {
+            let Some((seqs, retired, using)) = views[i].clone() else { continue };
+            if retired || using { continue; }
+            if let Some(q) = seqs.first() {
+                if *q < self.max_rpt && self.received.contains_key(&next) {
+                    self.flag(sink, "abandoned_id_kept_although_spare", &format!("{} {}", i, q), &format!("idle cell {} keeps id seq {} < retire_prior_to {} although the unused id seq {} has been received", i, q, self.max_rpt, next));
+                }
+            }
+        }
+    }
+
+    /// end of a case, every BorrowedCid released: the RETIRE_CONNECTION_ID frames sent are exactly the ids below
+    /// retire_prior_to plus the ids some path gave up, minus the ids still held — each once.
+    fn end_check(&mut self, sink: &mut Sink) {
+        if self.dead || self.closed { return; }
+        self.observe(&[], sink);
+        let mut held: BTreeSet<u64> = BTreeSet::new();
+        for c in &self.cells {
+            match cell_view(c) {
+                Some((seqs, _, true)) => held.extend(seqs),
+                Some((seqs, _, false)) => held.extend(seqs.into_iter().take(1)),
+                None => return,
+            }
+        }
+        let mut want: BTreeSet<u64> = (0..self.max_rpt).collect();
+        for a in &self.assigned { want.extend(a.iter().cloned()); }
+        for q in &held { want.remove(q); }
+        let missing: Vec<u64> = want.iter().filter(|q| !self.retire_count.contains_key(q)).cloned().collect();
+        let extra: Vec<(u64, u32)> = self.retire_count.iter().filter(|(q, n)| **n != 1 || !want.contains(q)).map(|(q, n)| (*q, *n)).collect();
+        if !missing.is_empty() || !extra.is_empty() {
+            let show = |v: &BTreeSet<u64>| { let mut x: Vec<u64> = v.iter().rev().take(12).cloned().collect(); x.reverse(); x };
+            let got: BTreeSet<u64> = self.retire_count.keys().cloned().collect();
+            sink.monitor_fail("retire_multiset_mismatch", &format!("end of case: ids still held {:?}, retire_prior_to {}; never retired {:?}; retired wrongly (seq, times) {:?}; expected RETIRE set (largest 12 of {}) {:?}, sent (largest 12 of {}) {:?}",
+                held, self.max_rpt, &missing[..missing.len().min(12)], &extra[..extra.len().min(12)], want.len(), show(&want), got.len(), show(&got)));
         }
     }
 
@@ -605,6 +762,7 @@ impl RCase {
                 if parseable && !dup_conflict && !self.conflict && would_active as u64 <= self.limit {
                     sink.monitor_fail("legal_issue_rejected", &format!("NEW_CONNECTION_ID seq={} retire_prior_to={} would leave {} active ids (limit {}) but was rejected with CONNECTION_ID_LIMIT_ERROR", seq, rpt, would_active, self.limit));
                 }
+                self.closed = true;
                 let t = self.tail(sink);
                 sink.line(&op, &format!("err {} {}", kind_tok(e.kind()), t));
                 self.dead = true; // connection error: the connection is closed
@@ -713,7 +871,72 @@ impl RCase {
     }
 }
 
-fn one_case_r(rng: &mut Rng, sink: &mut Sink) {
+/// Several NEW_CONNECTION_ID frames arrive while paths hold a `BorrowedCid`, each raising retire_prior_to past the id
+/// the borrowed paths were just switched to; then the borrows end.  All choices from `rng` (the burst stream).
+#[allow(clippy::too_many_arguments)]
+fn burst(c: &mut RCase, rng: &mut Rng, limit: u64, peer_next: &mut u64, peer_rpt: &mut u64, flight: &mut Vec<(u64, u64)>, delivered: &mut Vec<(u64, u64)>, sink: &mut Sink) {
+    sink.branch("burst:rpt-bumps-in-one-borrow");
+    let mut order: Vec<usize> = (0..c.cells.len()).collect();
+    for i in (1..order.len()).rev() { let j = rng.below(i as u64 + 1) as usize; order.swap(i, j); }
+    // paths that can borrow (alive, holding an id) first
+    let able = |i: &usize| matches!(cell_view(c.cells[*i]), Some((s, false, _)) if !s.is_empty());
+    let (mut can, cannot): (Vec<usize>, Vec<usize>) = order.iter().partition(|i| able(i));
+    can.extend(cannot);
+    let order = can;
+    let want = rng.range(1, 3) as usize;
+    let mut mine: Vec<usize> = vec![];
+    for &cell in order.iter().take(want) {
+        if c.dead { return; }
+        if c.held[cell].is_empty() { c.borrow(cell, sink); }
+        if !c.held[cell].is_empty() { mine.push(cell); }
+    }
+    if c.dead { return; }
+    sink.branch(&format!("burst:borrowed-cells-{}", mine.len()));
+    let n = rng.range(2, 4);
+    let mut late: Vec<(u64, u64)> = vec![];
+    for _ in 0..n {
+        if c.dead { return; }
+        let seq = *peer_next;
+        *peer_next += 1;
+        // newest id held by the borrowed paths right now (real state)
+        let front = mine.iter().filter_map(|&i| cell_view(c.cells[i])).filter_map(|v| v.0.first().cloned()).max();
+        let lo = seq.saturating_sub(limit).max(*peer_rpt);
+        let rpt = match rng.below(10) {
+            0..=5 => seq,
+            6..=8 => front.map(|f| f + 1).unwrap_or(seq).max(lo).min(seq),
+            _ => (*peer_rpt + 1).max(lo).min(seq),
+        };
+        *peer_rpt = (*peer_rpt).max(rpt);
+        if rng.chance(1, 4) { late.push((seq, rpt)); continue; }
+        c.newcid(seq, rpt, &format!("x{}", seq), sink);
+        delivered.push((seq, rpt));
+    }
+    if !late.is_empty() {
+        if rng.chance(2, 3) {
+            sink.branch("burst:reordered");
+            while !late.is_empty() && !c.dead {
+                let i = rng.below(late.len() as u64) as usize;
+                let (seq, rpt) = late.remove(i);
+                c.newcid(seq, rpt, &format!("x{}", seq), sink);
+                delivered.push((seq, rpt));
+            }
+        } else {
+            sink.branch("burst:held-back");
+            flight.extend(late.drain(..));
+        }
+    }
+    if c.dead { return; }
+    let most = mine.iter().filter_map(|&i| cell_view(c.cells[i])).map(|v| v.0.len()).max().unwrap_or(0);
+    sink.branch(match most { 0 => "burst:cell-holds-0", 1 => "burst:cell-holds-1", 2 => "burst:cell-holds-2", _ => "burst:cell-holds-3+" });
+    if most >= 3 { c.saw_burst3 = true; }
+    for cell in mine {
+        if c.dead { return; }
+        if rng.chance(1, 8) { sink.branch("burst:borrow-kept"); continue; }
+        c.release(cell, sink);
+    }
+}
+
+fn one_case_r(rng: &mut Rng, brng: &mut Rng, sink: &mut Sink) {
     let limit = match rng.below(10) { 0..=3 => 2, 4..=6 => 3, 7 => 4, 8 => rng.range(5, 9), _ => rng.range(2, 5) };
     let mut c = RCase::new(limit);
     sink.line(&format!("init {}", limit), "ok");
@@ -726,8 +949,14 @@ fn one_case_r(rng: &mut Rng, sink: &mut Sink) {
     c.apply(sink);
     if rng.chance(9, 10) { c.initial("x0", 0, sink); }
     let nops = rng.range(4, 34);
+    // bursts come from their own random stream: the histories of the main stream stay what they were
+    let bursty = brng.chance(3, 4);
     for _ in 0..nops {
         if c.dead { break; }
+        if bursty && !c.received.is_empty() && brng.below(100) < 17 {
+            burst(&mut c, brng, limit, &mut peer_next, &mut peer_rpt, &mut flight, &mut delivered, sink);
+            if c.dead { break; }
+        }
         let k = rng.below(100);
         if k < 8 && c.cells.len() < 4 {
             c.apply(sink);
@@ -780,7 +1009,8 @@ fn one_case_r(rng: &mut Rng, sink: &mut Sink) {
     for cell in 0..c.cells.len() { while !c.dead && c.held[cell].len() > 0 { c.release(cell, sink); } }
     for cell in 0..c.cells.len() { if !c.dead { c.borrow(cell, sink); } }
     for cell in 0..c.cells.len() { if !c.dead { c.release(cell, sink); } }
-    if c.max_rpt > 0 && c.saw_jump && c.saw_deferred { sink.nontrivial(); }
+    c.end_check(sink);
+    if (c.max_rpt > 0 && c.saw_jump && c.saw_deferred) || c.saw_burst3 { sink.nontrivial(); }
     let _ = c.saw_reassign;
     c.finish();
 }
@@ -790,10 +1020,11 @@ pub fn run_r(o: &Opts) {
     for i in 0..o.cases {
         if let Some(k) = o.only_case { if k != i { continue; } }
         let mut rng = Rng::new(o.seed, i);
+        let mut brng = Rng::new(o.seed ^ 0x6275_7273_7400, i);
         sink.case(&format!("{}", i));
-        one_case_r(&mut rng, &mut sink);
+        one_case_r(&mut rng, &mut brng, &mut sink);
     }
-    sink.finish(&o.stats, "random histories on a real ArcRemoteCids: a simulated peer issuing ids in order with rising retire_prior_to, frames held back / reordered / duplicated / arbitrary (incl. conflicting duplicates, unparseable rpt > seq, large sequence numbers), up to 4 ArcCidCells borrowing (also nested), releasing and retiring; non-trivial = retire_prior_to rose past a received id and a deferred retirement happened on release; distinct by hash of the case transcript");
+    sink.finish(&o.stats, "random histories on a real ArcRemoteCids: a simulated peer issuing ids in order with rising retire_prior_to, frames held back / reordered / duplicated / arbitrary (incl. conflicting duplicates, unparseable rpt > seq, large sequence numbers), up to 4 ArcCidCells borrowing (also nested), releasing and retiring; in 3/4 of the cases bursts (own random stream, ~1 per 6 ops): 1..3 cells borrowed, 2..4 frames each raising retire_prior_to past the ids those cells hold (some reordered / held back), then released; non-trivial = (retire_prior_to rose past a received id and a deferred retirement happened on release) or a borrowed cell held >= 3 ids in a burst; distinct by hash of the case transcript");
 }
 
 // ---- exhaustive small scope --------------------------------------------------------------------
@@ -803,11 +1034,14 @@ fn x_case(limit: u64, frames: &[(u64, u64)], variant: u32, sink: &mut Sink) {
     sink.line(&format!("init {}", limit), "ok");
     c.apply(sink);
     c.initial("x0", 0, sink);
-    let early = matches!(variant, 2 | 3 | 5 | 6 | 7);
+    let early = matches!(variant, 2 | 3 | 5 | 6 | 7 | 8 | 9);
     if early { c.apply(sink); }
     if variant == 7 { c.retirecell(1, sink); }
-    if variant == 1 { c.borrow(0, sink); }
-    if variant == 6 { c.borrow(1, sink); }
+    if matches!(variant, 1 | 8 | 9) { c.borrow(0, sink); }
+    if matches!(variant, 6 | 8 | 9) { c.borrow(1, sink); }
+    // 8 / 9: both cells borrowed (cell 1 as soon as it has an id) across ALL frames, released after the last; 9: frames reversed
+    let reversed: Vec<(u64, u64)> = frames.iter().rev().cloned().collect();
+    let frames: &[(u64, u64)] = if variant == 9 { &reversed } else { frames };
     for (i, (seq, rpt)) in frames.iter().enumerate() {
         if c.dead { break; }
         if variant == 4 && i == 1 { c.borrow(0, sink); }
@@ -819,12 +1053,14 @@ fn x_case(limit: u64, frames: &[(u64, u64)], variant: u32, sink: &mut Sink) {
             (4, 0) => c.apply(sink),
             (4, 1) => c.release(0, sink),
             (5, 0) => c.retirecell(0, sink),
+            (8, _) | (9, _) => { if c.held[1].is_empty() { c.borrow(1, sink); } }
             _ => {}
         }
     }
     for cell in 0..c.cells.len() { while !c.dead && c.held[cell].len() > 0 { c.release(cell, sink); } }
     for cell in 0..c.cells.len() { if !c.dead { c.borrow(cell, sink); } }
     for cell in 0..c.cells.len() { if !c.dead { c.release(cell, sink); } }
+    c.end_check(sink);
     sink.nontrivial();
     c.finish();
 }
@@ -845,7 +1081,7 @@ pub fn run_x(o: &Opts) {
             let mut idx = vec![0usize; len];
             loop {
                 let fr: Vec<(u64, u64)> = idx.iter().map(|i| alpha[*i]).collect();
-                for v in 0..8 { emit(limit, &fr, v, &mut sink); }
+                for v in 0..10 { emit(limit, &fr, v, &mut sink); }
                 let mut p = 0;
                 while p < len { idx[p] += 1; if idx[p] < alpha.len() { break; } idx[p] = 0; p += 1; }
                 if p == len { break; }
@@ -868,7 +1104,7 @@ pub fn run_x(o: &Opts) {
             }
         }
     }
-    sink.finish(&o.stats, "exhaustive: limits 2..4 (quick 2..3), every sequence of <= 3 (quick 2) NEW_CONNECTION_ID frames with seq 1..6 (quick 1..5) and retire_prior_to 0..seq, times 8 fixed interleavings with 2 cells (borrow held across frames, cell applied late, cell retired early/late); thorough also 4..6 frames over a 6-frame alphabet; every case counted");
+    sink.finish(&o.stats, "exhaustive: limits 2..4 (quick 2..3), every sequence of <= 3 (quick 2) NEW_CONNECTION_ID frames with seq 1..6 (quick 1..5) and retire_prior_to 0..seq, times 10 fixed interleavings with 2 cells (borrow held across frames, cell applied late, cell retired early/late, both cells borrowed across all frames in order / reversed); thorough also 4..6 frames over a 6-frame alphabet; every case counted");
 }
 
 pub const RUNS: &[(&str, fn(&Opts))] = &[("C14l", run_l), ("C14r", run_r), ("C14x", run_x)];
